@@ -40,6 +40,9 @@ def gen_session(seed, tier, weights, ncmd_range=(1, 6), initial_filter_p=0.25, m
     cfg = {'nconn': nconn, 'sides': [rng.choice(['client', 'server']) for _ in range(nconn)],
            'dialect': L.pick_dialect(rng, nconn), 'epoch_us': rng.choice([0, rng.randrange(1 << 32)]),
            'suppress': rng.random() < 0.3, 'rig': 'component'}
+    if nconn >= 2 and rng.random() < 0.15:
+        intents = app_id_flavour(rng, intents, nconn)
+        cfg['app_id_flavour'] = True
     sc = {'prop': pid, 'seed': seed, 'config': cfg, 'intents': intents}
     st = L.build_stream(sc, rig.REPO)
     names = oracles.conn_names(st)
@@ -53,8 +56,35 @@ def gen_session(seed, tier, weights, ncmd_range=(1, 6), initial_filter_p=0.25, m
     return sc
 
 
+def app_id_flavour(rng, intents, nconn):
+    """aim at `connection <x>` where <x> is both another connection's letter and an earlier connection's app id"""
+    out = list(intents)
+    c = rng.randrange(nconn)
+    head = [['act', c, 'get_registry', 0, 0, 1], ['act', c, 'bind_synth', 1, 0, 2], ['act', c, 'bind_synth', 1, 0, 3],
+            ['act', c, 'bind_synth', 2, 1, 4]]
+    for k in range(rng.randint(1, 3)):
+        # r1 % 10 picks the value: 0 'b', 1 'B', 2 'c', 3 'a', 9 'C'; r2 even = set_app_id
+        head.append(['act', c, 'app_id', rng.choice([0, 1, 2, 3, 9]) + 10 * rng.randrange(100), 0, rng.randrange(1 << 30)])
+    pos = rng.randint(0, max(0, len(out) // 3))
+    out[pos:pos] = head
+    return out
+
+
 def generate(seed, tier, index):
-    sc = gen_session(seed, tier, CMD_WEIGHTS)
+    if index % 6 == 5:
+        # all histories, not only well-formed ones: messages on objects the tool cannot resolve, under selection changes
+        # (filter stays `*`: what a matcher means for an unresolvable object is not C06's business)
+        sc = gen_session(seed, tier, {'connection': 1}, ncmd_range=(1, 5), initial_filter_p=0.0)
+        rng = random.Random('%d/orphans' % seed)
+        out = []
+        for it in sc['intents']:
+            out.append(it)
+            if it[0] == 'act' and rng.random() < 0.2:
+                out.append(['act', it[1], 'orphan', rng.randrange(1 << 30), rng.randrange(1 << 30), rng.randrange(1 << 30)])
+        sc['intents'] = out
+        sc['config']['orphans'] = True
+    else:
+        sc = gen_session(seed, tier, CMD_WEIGHTS)
     # closing query: everything, shown or not, must have been recorded
     sc['intents'] += [['cmd', 'connection all', {'t': 'connection', 'to': 'all'}],
                       ['cmd', 'list *', {'t': 'list', 'm': {'kind': 'star'}, 'cap': None, 'closing': True}]]
